@@ -85,15 +85,27 @@ func hasLoneCR(b []byte) bool {
 	return false
 }
 
+// strWidth is the display width of s as a piece of a longer line: go-runewidth
+// measures it with four ASCII characters appended, which are then taken off
+// again.  For well-formed text that changes nothing; ill-formed UTF-8 (which
+// the command prints as it is) is thereby counted the way the library counts
+// it in the middle of a line -- one column per ill-formed byte, one column
+// for a truncated or surrogate-shaped sequence -- and not the way it counts
+// an incomplete sequence at the very end of its argument (as nothing,
+// together with the characters that follow its lead byte).
+func strWidth(s string) int {
+	return wcond.StringWidth(s+"xxxx") - 4
+}
+
 // termCol is the terminal column reached after printing s from column 0.
 func termCol(s string) int {
 	col := 0
 	for {
 		i := strings.IndexByte(s, '\t')
 		if i < 0 {
-			return col + wcond.StringWidth(s)
+			return col + strWidth(s)
 		}
-		col += wcond.StringWidth(s[:i])
+		col += strWidth(s[:i])
 		col = (col/8 + 1) * 8
 		s = s[i+1:]
 	}
@@ -185,7 +197,7 @@ func compare(r report, w want) string {
 	if !atEnd {
 		_, n := utf8.DecodeRune(w.Text[w.Pos:])
 		offCh = w.Text[w.Pos : w.Pos+n]
-		if ww := wcond.StringWidth(string(offCh)); ww > 1 {
+		if ww := strWidth(string(offCh)); ww > 1 {
 			offW = ww
 		}
 	}
@@ -236,4 +248,66 @@ func trimPartialRune(b []byte) []byte {
 		}
 	}
 	return b
+}
+
+// illFormedAt: b[i] is a byte of ill-formed UTF-8 (it decodes as a
+// one-byte error).
+func illFormedAt(b []byte, i int) bool {
+	if i >= len(b) || b[i] < utf8.RuneSelf {
+		return false
+	}
+	r, n := utf8.DecodeRune(b[i:])
+	return r == utf8.RuneError && n == 1
+}
+
+// knownIllFormed names the known-finding class of a location that involves
+// ill-formed UTF-8 ("" if none); both predicates are about the bytes of the
+// true line around the offending byte only.
+func knownIllFormed(w want) string {
+	if w.Pos < 0 || w.Pos > len(w.Text) {
+		return ""
+	}
+	// C17.F8: ill-formed bytes end exactly at the offending byte, or the
+	// lead byte of an incomplete sequence stands so close before it that its
+	// nominal length reaches it (an incomplete character before a line end
+	// / the end of input is left out of the excerpt, which compare accepts)
+	if w.Pos > 0 && knownClass("C17/illformed-adjacent") {
+		pre := w.Text[:w.Pos]
+		adjacent := false
+		if r, n := utf8.DecodeLastRune(pre); r == utf8.RuneError && n == 1 {
+			adjacent = true
+		}
+		for i := max(len(pre)-3, 0); i < len(pre); i++ {
+			need := 0
+			switch c := pre[i]; {
+			case c >= 0xF0 && c <= 0xF7:
+				need = 4
+			case c >= 0xE0 && c <= 0xEF:
+				need = 3
+			case c >= 0xC2 && c <= 0xDF:
+				need = 2
+			}
+			if i+need > len(pre) {
+				adjacent = true
+			}
+		}
+		if adjacent && !(w.Pos == len(w.Text) && len(trimPartialRune(w.Text)) != len(w.Text)) {
+			return "C17/illformed-adjacent"
+		}
+	}
+	// C17.F9: the offending byte is ill-formed and nothing but ill-formed
+	// bytes follow it up to the line terminator or the end of the text
+	if w.Pos < len(w.Text) && knownClass("C17/illformed-at-line-end") {
+		all := true
+		for i := w.Pos; i < len(w.Text); i++ {
+			if !illFormedAt(w.Text, i) {
+				all = false
+				break
+			}
+		}
+		if all {
+			return "C17/illformed-at-line-end"
+		}
+	}
+	return ""
 }
